@@ -244,7 +244,8 @@ def _run_stream_init_sync(
             # method raises past this point takes the ordinary error path.
             _validate_call_signature(info.name, kwargs, info.param_types, info.param_defaults, info.params_schema)
             _validate_params(info.name, kwargs, info.param_types)
-        except (pa.ArrowInvalid, TypeError, StopIteration, RpcError, VersionError) as exc:
+        except (pa.ArrowInvalid, OSError, TypeError, StopIteration, RpcError, VersionError) as exc:
+            # OSError: a damaged IPC flatbuffer (pyarrow's ArrowIOError); see _app_unary.py.
             raise _RpcHttpError(exc, status_code=HTTPStatus.BAD_REQUEST) from exc
         except Exception as exc:
             # External pointer resolution can fail before stream state exists.
@@ -506,7 +507,12 @@ def _run_stream_exchange_sync(
         try:
             req_reader = ValidatedReader(ipc.open_stream(stream), app._server.ipc_validation)
             input_batch, custom_metadata = req_reader.read_next_batch_with_custom_metadata()
-        except pa.ArrowInvalid as exc:
+        except (pa.ArrowInvalid, OSError, StopIteration) as exc:
+            # Every way the in-memory body can fail to yield one batch is the
+            # caller's: ArrowInvalid (bad framing), OSError (pyarrow's
+            # ArrowIOError for a damaged flatbuffer) and StopIteration (a
+            # stream that ends before its first batch).  Letting the last two
+            # escape produced Falcon's own JSON 500.
             raise _RpcHttpError(exc, status_code=HTTPStatus.BAD_REQUEST) from exc
 
         # Extract both tokens before resolution — resolve_external_location
